@@ -319,6 +319,12 @@ def r5(ctx, cfg):
     # get_balance(..) is picked, and the conditions on that element under which it happens)
     # what is put into the BalanceResponse: an element of get_balance(..) picked under `elem.denom == request.denom`
     # (and nothing else about the element), or coin(0, denom)
+    ab = [(b, t) for b, t in f.calls() if t["callee"]["key"].endswith("AllBalanceResponse::new")]
+    okab = len(ab) == 1
+    if okab:
+        a0 = P.call_args(f, ab[0][1], ab[0][0])[0]
+        okab = just(a0, lambda y: y[0] == "ok" and peel(y[1])[0] == "call" and peel(y[1])[1] == B + "get_balance")
+    ctx.ob(R, QUERY, "AllBalances-answers-the-whole-ledger-entry", okab, "the AllBalances answer is not get_balance(..) as it is", fn=f, sample="AllBalanceResponse::new(get_balance(..)?)")
     picks = []
     zero_fallback = False
     for b1, t1 in f.calls():
